@@ -118,6 +118,15 @@ pub fn payload_strategy(t: &Arc<Table>, f: &Field, cfg: GenCfg, depth: u32) -> B
                 Len::Temp => (3usize..=4).boxed(),
                 _ => len_strategy(max_payload(&f.len, cfg.text_max)),
             };
+            if f.len == Len::Temp {
+                // half of the temperatures look like temperatures: digits, sign, decimal point, unit, blank
+                let temp_char = proptest::sample::select("0123456789.-+ C\u{b0}".chars().collect::<Vec<char>>());
+                return prop_oneof![
+                    1 => lens.clone().prop_flat_map(cp437_text).prop_map(Val::S),
+                    1 => lens.prop_flat_map(move |n| vec(temp_char.clone(), n)).prop_map(|cs| Val::S(cs.into_iter().collect())),
+                ]
+                .boxed();
+            }
             lens.prop_flat_map(cp437_text).prop_map(Val::S).boxed()
         }
         Enc::Utf8 => {
